@@ -17,6 +17,9 @@ type visitor struct {
 	// tracks where we are in the context
 	currContext     []string
 	contextCallback func([]string)
+
+	// depth of the tree being visited
+	depth int
 }
 
 func (v *visitor) context(part string, reset bool) {
@@ -33,6 +36,13 @@ func (v *visitor) context(part string, reset bool) {
 
 // Visit the top level parse tree
 func (v *visitor) Visit(tree antlr.ParseTree) any {
+	// chains of operators or lookups don't nest as they are parsed but give a tree that is as deep as they are long
+	v.depth++
+	if v.depth > MaxParseDepth {
+		panic(errTooDeep)
+	}
+	defer func() { v.depth-- }()
+
 	return tree.Accept(v)
 }
 
